@@ -154,6 +154,9 @@ class FuncTranslator:
     self.arr_params = {}
     self.written_arrays = set()
     self.static_exprs = {}
+    self.alloc_sites = []
+    self.alias_of = {}           # input array param -> output array param bound to the same array at a launch
+    self.written_now = set()     # array roots written so far in program order (loop bodies pre-added)
     self.rv_init = None
     self.retf_init = False
 
@@ -465,6 +468,15 @@ class FuncTranslator:
       plain = "(" + base + " " + " ".join(parts) + ")"
       if isinstance(node.value, ast.Name):
         root, prefix = self.alias.get(node.value.id, (node.value.id, []))
+        partner = self.alias_of.get(root)
+        if partner is not None and partner in self.written_now and root not in self.written_arrays and "ws" in env.types:
+          # the launch binds `root` and `partner` to the same array and this thread has already written `partner`
+          fnm = {F: "lookupF", I: "lookupI", B: "lookupB"}.get(tb[1])
+          if fnm is None and tb[1] in VEC:
+            return f"({tb[1]}.ofList (Write.lookupV ws \"{partner}\" [{', '.join(prefix + parts)}] ({tb[1]}.toList {plain})))", tb[1]
+          if fnm is None:
+            self.err(node, f"aliased read of an array of {tb[1]}")
+          return f"(Write.{fnm} ws \"{partner}\" [{', '.join(prefix + parts)}] {plain})", tb[1]
         if root in self.written_arrays and "ws" in env.types:
           fnm = {F: "lookupF", I: "lookupI", B: "lookupB"}.get(tb[1])
           if fnm is None and tb[1] in VEC:
@@ -956,13 +968,21 @@ class FuncTranslator:
       c, ct = self.expr(s.test, env, "COND")
       c = self.as_bool(c, ct, s)
       if self.contains_return(s.body) or self.contains_return(s.orelse):
+        saved_w = set(self.written_now)
         e1 = self.stmts(list(s.body) + rest, env.copy(), tail, depth + 1)
+        w1 = set(self.written_now)
+        self.written_now = set(saved_w)
         e2 = self.stmts(list(s.orelse) + rest, env.copy(), tail, depth + 1)
+        self.written_now |= w1
         return f"if {c} then\n{textwrap.indent(e1, ind)}\nelse\n{textwrap.indent(e2, ind)}"
       names = self.assigned_names(list(s.body) + list(s.orelse), env)
       env1, env2 = env.copy(), env.copy()
+      saved_w = set(self.written_now)
       b1 = self.stmts(list(s.body), env1, tail=lambda e: "⟪TUPLE⟫", depth=depth + 1)
+      w1 = set(self.written_now)
+      self.written_now = set(saved_w)
       b2 = self.stmts(list(s.orelse), env2, tail=lambda e: "⟪TUPLE⟫", depth=depth + 1)
+      self.written_now |= w1
       merged = []
       for n in names:
         t = env1.types.get(n) or env2.types.get(n)
@@ -1012,6 +1032,17 @@ class FuncTranslator:
   def dyn_loop(self, s, rest, env: Env, tail, depth, is_while):
     ind = "  "
     has_ret = self.has_real_return(s.body)
+    # writes anywhere in the loop body may precede (in an earlier iteration) any read in it
+    for n in ast.walk(s):
+      tg = None
+      if isinstance(n, (ast.Assign, ast.AugAssign)):
+        for t in (n.targets if isinstance(n, ast.Assign) else [n.target]):
+          if isinstance(t, ast.Subscript) and isinstance(t.value, ast.Name):
+            self.written_now.add(self.alias.get(t.value.id, (t.value.id, []))[0])
+      elif isinstance(n, ast.Call) and ast.unparse(n.func).startswith("wp.atomic_") and n.args:
+        a0 = n.args[0].value if isinstance(n.args[0], ast.Subscript) else n.args[0]
+        if isinstance(a0, ast.Name):
+          self.written_now.add(self.alias.get(a0.id, (a0.id, []))[0])
     if s.orelse:
       self.err(s, "loop else")
     has_break = False
@@ -1171,6 +1202,7 @@ class FuncTranslator:
 
   def emit_write(self, root, idxs, val, kind, env):
     self.writes = True
+    self.written_now.add(root)
     env.types["ws"] = "WS"
     return f"let ws : List (Write K) := ws ++ [(Write.mk \"{root}\" [{', '.join(idxs)}] {val} WKind.{kind} : Write K)]"
 
@@ -1265,6 +1297,9 @@ class FuncTranslator:
       self.extra_params.append((an, lean_type(t[1])))
       w = self.atomic(value, env, an)
       w = w.replace("WKind.aadd", "WKind.alloc")
+      import re as _re
+      mm = _re.search(r'Write\.mk "([^"]+)"', w)
+      self.alloc_sites.append([an, mm.group(1) if mm else ""])
       env.types[target.id] = t[1]
       env.consts.pop(target.id, None)
       return [w, f"let {self.mod.lname(target.id)} : {lean_type(t[1])} := {an}"]
@@ -1466,6 +1501,7 @@ class ModuleTranslator:
     self.pynames: Dict[str, str] = {}
     self.extras: Dict[str, list] = {}
     self.statics: Dict[str, dict] = {}
+    self.allocsites: Dict[str, list] = {}
     self.kinds: Dict[str, str] = {}
     self.pnames: Dict[str, list] = {}
     self.out: Dict[str, str] = {}
@@ -1592,9 +1628,11 @@ class ModuleTranslator:
       ft.name = fname
       ft.kernel = self.is_kernel(fn)
       ft.is_nested = fname in self.nested
+      ft.alias_of = dict(self.registry.kernel_aliases.get(f"{self.pyname}.{fname}", {})) if ft.kernel else {}
       src, ptypes, rtype = ft.translate()
       self.extras[k] = ft.extra_out
       self.statics[k] = ft.static_exprs
+      self.allocsites[k] = ft.alloc_sites
       self.kinds[k] = "kernel" if ft.kernel else ("wfunc" if ft.writes else "func")
       self.pnames[k] = ft.param_names
       self.sigs[k] = (ptypes, rtype)
@@ -1612,9 +1650,11 @@ class ModuleTranslator:
 
 
 class Registry:
-  def __init__(self):
+  def __init__(self, aliases=None):
     self.mods: Dict[str, ModuleTranslator] = {}
     self.order: List[Tuple[ModuleTranslator, str]] = []
+    # kernel key "module.name" -> {input param: output param} for parameters bound to the SAME array at some launch
+    self.kernel_aliases = aliases or {}
 
   def module(self, pyname) -> ModuleTranslator:
     if pyname not in self.mods:
